@@ -365,7 +365,7 @@ fn run_process(ctx: &mut Ctx, src: &str, stdin: Stdin, stdout: Option<&str>, wha
 pub fn run(ctx: &mut Ctx) {
     let t = prepare();
     let n = ctx.nshards as u32;
-    drive(ctx, "sequences", ctx.tier.pick(24_000, 600_000) / n, 16, 200, |ctx, b| sequence(ctx, b, &t));
+    drive(ctx, "sequences", ctx.tier.pick(96_000, 1_200_000) / n, 16, 200, |ctx, b| sequence(ctx, b, &t));
     set_shrink_iters(40);
     let e2e_shards = 4.min(ctx.nshards);
     if ctx.shard < e2e_shards {
